@@ -288,7 +288,10 @@ def np_searchsorted(ex, args, kw, st):
     if isinstance(a, SArr) and a.ndim == 1:
         f = snap(a)
         a = SSeq(a.shape[0], lambda i, f=f: f((i,)), a.kind)
-    if not isinstance(a, SSeq) or not is_num(v):
+    if isinstance(v, SArr) and v.ndim == 1:
+        fv = snap(v)
+        v = SSeq(v.shape[0], lambda i, fv=fv: fv((i,)), v.kind)
+    if not isinstance(a, SSeq) or not (is_num(v) or isinstance(v, SSeq)):
         raise Unsupported('searchsorted of these values')
     uid = next(_bv)
     n = num_term(a.length)
@@ -296,6 +299,16 @@ def np_searchsorted(ex, args, kw, st):
     st.check('searchsorted: the array is sorted',
              z3.ForAll([k, k2], z3.Implies(z3.And(k >= 0, k <= k2, k2 < n),
                                            num_term(a.fn(k)) <= num_term(a.fn(k2)))))
+    if isinstance(v, SSeq):
+        # one insertion index per element of v, in the order of v
+        idx = z3.Function(f'ss_idx!{uid}', z3.IntSort(), z3.IntSort())
+        q = z3.Int(f'bv!ss{uid}q')
+        inq = z3.And(q >= 0, q < num_term(v.length))
+        vq = num_term(v.fn(q))
+        st.fact(z3.ForAll([q], z3.Implies(inq, z3.And(idx(q) >= 0, idx(q) <= n))))
+        st.fact(z3.ForAll([q, k], z3.Implies(z3.And(inq, k >= 0, k < idx(q)), num_term(a.fn(k)) < vq)))
+        st.fact(z3.ForAll([q, k], z3.Implies(z3.And(inq, k >= idx(q), k < n), num_term(a.fn(k)) >= vq)))
+        return SSeq(v.length, lambda i: idx(num_term(i)), 'int')
     i = fresh_int(f'ss{uid}')
     st.fact(z3.And(i >= 0, i <= n))
     st.fact(z3.ForAll([k], z3.Implies(z3.And(k >= 0, k < i), num_term(a.fn(k)) < num_term(v))))
